@@ -2,24 +2,32 @@ from common import COMMON_TB
 
 CONFIG = {
     "lean_modules": ["SA.Props.C10"],
-    "level_text": "Partial proof. C10_partial proved in Lean: for NULL, PRIVATE and TXT answers whose encoded payload fits one "
-                  "record (65530 / 65530 / 253 bytes), every response type, every field value, every error text without NUL and "
-                  "every codec pair meeting C08's roundtrip (hypothesis), the client decodes exactly the response the server "
-                  "encoded after wrap, DNS pack/unpack and unwrap. C10_error_reported_wrap/_wire: when wrapping or packing "
-                  "fails the outcome is that error and nothing is decoded. C10_private_registered / C10_unwrap_undoes_escaping "
-                  "tie the proof to the two repairs (facts regenerated from the source). Kernel-checked witnesses: A/AAAA "
-                  "length residue, SRV label (reported errors), Raw over CNAME/MX/SRV (silent difference => not C10_full, open "
-                  "finding). The full model (all 8 record types, multi-record splitting, order tags, TypePriority sort, all 7 "
-                  "response kinds) is tied to the Go code by running both through the real serializer, wrap.go and miekg "
-                  "Pack/Unpack and comparing outcome class, record count, unwrapped length and every decoded field.",
-    "level_note": "Not a theorem: multi-record reassembly (more than one NULL/PRIVATE record, more than one TXT string, A/AAAA/"
-                  "CNAME/MX/SRV success cases) - covered by the executable model and the correspondence only (payloads 0..300 "
-                  "all lengths, then up to 8192 and 65535). miekg/dns record packing is modelled, not verified. Codecs are "
-                  "parameters (Base32/64/64u/Raw computed locally, Base85/91/128 looked up from the op line); inputs on which "
-                  "the real codec itself does not round-trip (C08's Base85/Base128 defects) are driven and compared but not "
-                  "charged to C10. Error texts containing NUL are excluded (decoder reads them with ReadString(0)). Domains "
-                  "so long that GetLongestDataString <= 0 are outside the model (the SRV wrapper would loop forever).",
-    "technique": "Lean 4 proof (round-trip lemmas, one-record region) + kernel-checked witnesses + model/code differential correspondence",
+    "level_text": "Proof over all record types and payload lengths, with two stated exclusions. Proved in Lean: "
+                  "C10_sort_inverts_tagging (generic key lemma: records tagged o, o+1, ... whose decoded key is strictly increasing, in "
+                  "any arrival order, under any sort that returns an ordered permutation - all sort.Slice promises - unwrap to the pieces "
+                  "in order; the model's insertion sort meets that contract and all such sorts agree on distinct keys); C10_tag_range "
+                  "(exact record count up to which each type's decoded order tag increases: NULL/PRIVATE/AAAA/SRV 65535, A 255, MX 6553, "
+                  "TXT 512, CNAME 511, and the next tag wraps); C10_reassembly (all 8 types, every length: if wrap and pack/unpack succeed, "
+                  "within the tag range and outside C10_exception, the client decodes exactly the response sent); C10_multi_null_priv, "
+                  "C10_multi_txt, C10_multi_a_aaaa (success is unconditional there: NULL/PRIVATE and TXT for every payload length incl. the "
+                  "multi-string / multi-record TXT splitting and the escape/unescape path, A/AAAA for multiples of 3/14 bytes); "
+                  "C10_a_overflow_reported; C10_no_silent_corruption (outside C10_exception = name-carrying type with '.' or '\\' in the "
+                  "encoded payload, within the tag range: the response sent or a reported error, never another response, never a panic). "
+                  "Earlier: C10_partial (one record), C10_error_reported_wrap/_wire, C10_private_registered / C10_unwrap_undoes_escaping "
+                  "(facts regenerated from the source), kernel-checked witnesses (A/AAAA residue, SRV label, Raw over CNAME => not C10_full). "
+                  "The model is tied to the Go code by running both through the real serializer, wrap.go and miekg Pack/Unpack and "
+                  "comparing outcome class, record count, unwrapped length and every decoded field.",
+    "level_note": "Excluded from the theorems: (1) Raw / any payload containing '.' or '\\' over CNAME/MX/SRV - open finding "
+                  "C10-raw-over-names; (2) record counts beyond the tag range - open finding C10-order-tag-wrap (confirmed on the real code: "
+                  "AAAA 65537 records and TXT 513 records decode a different response silently; unreachable through the server, whose "
+                  "fragments are capped at 65535 bytes); only three corpus lines (AAAA 65535/65536/65537 records) check model = code there; "
+                  "(3) for CNAME/MX/SRV the domain must consist of plain host-name labels (DomainOk; a domain with characters that miekg "
+                  "escapes leaks into the payload - correspondence-checked only). miekg/dns record packing (incl. the 16-bit ANCOUNT) is "
+                  "modelled, not verified. Codecs are parameters (hypothesis: C08's roundtrip; Base32/64/64u/Raw computed locally, "
+                  "Base85/91/128 looked up from the op line). Error texts containing NUL are excluded (decoder reads them with "
+                  "ReadString(0)). Domains so long that GetLongestDataString <= 0 are outside the model (the SRV wrapper would loop "
+                  "forever). That CNAME/MX never succeed with more than one record is not a theorem (C10_reassembly does not need it).",
+    "technique": "Lean 4 proof (induction over the wrapper loops, generic sort/tag lemma, round-trip lemmas) + kernel-checked witnesses + model/code differential correspondence",
     "components": [{"name": "dnsresp", "timeout": {"quick": 300, "thorough": 1500}}],
     "rule": "dnsresp: (1) packet responses for every payload length 0..300 (quick: all of 0..64 and 230..300, every third "
             "between) x 8 record types x 7 downstream codecs x 1 (quick) / 3 (thorough) domains, 5 byte patterns incl. "
@@ -40,5 +48,7 @@ CONFIG = {
                                  "codec hypothesis roundtrip is C08's theorem (to be connected by the coordinator)"],
     "assumptions": ["the codec pair satisfies C08's roundtrip on byte strings and emits bytes",
                     "error responses are in canonical form (only the error is transmitted); error texts contain no NUL",
-                    "the question name of the request itself packs (domain labels of 1..63 characters)"],
+                    "the question name of the request itself packs (domain labels of 1..63 characters)",
+                    "CNAME/MX/SRV: the tunnel domain consists of labels that need no presentation escaping (host-name characters)",
+                    "the record count stays within the order-tag range (C10_countOk); the server's 65535-byte fragment cap guarantees it"],
 }
